@@ -5,10 +5,12 @@
    kind does not apply to the class). *)
 EXTENDS Loc
 
-Classes == {"SI", "CI", "SEQ", "CDS", "TX", "FEAT", "GENE", "VAR", "VCOLL", "COLL", "PARENT", "CODON"}
+Classes == {"SI", "CI", "SEQ", "CDS", "TX", "FEAT", "GENE", "VAR", "VCOLL", "COLL", "PARENT", "CODON", "QPOS", "FSI"}
 Kinds == {"start>end", "negative", "beyond-sequence", "length-mismatch", "frames-mismatch", "cds-outside-exons",
           "undirected", "wrong-alphabet", "overlapping", "duplicate", "empty", "mixed-frame-phase", "multi-primary",
-          "half-bounds", "strand-mismatch", "zero-length", "beyond-sequence-not-last", "gap-letter", "too-short", "too-long", "trailing-newline", "leading-blank"}
+          "half-bounds", "strand-mismatch", "zero-length", "beyond-sequence-not-last", "gap-letter", "too-short", "too-long", "trailing-newline", "leading-blank",
+          "zero-start", "zero-end", "before-bounds", "beyond-bounds", "parent-other-id", "parent-other-sequence", "parent-other-type",
+          "parent-missing"}
 (* outcomes: value | documented rejection | anything else is an internal error *)
 InternalExc(o) == IsExc(o) /\ o[2] \notin DocumentedExc
 Pairwise(ss, es) == Len(ss) = Len(es) /\ Len(ss) > 0 /\ \A i \in DOMAIN ss : 0 <= ss[i] /\ ss[i] <= es[i]
@@ -18,7 +20,11 @@ WithinSeq(es, n) == n < 0 \/ \A i \in DOMAIN es : es[i] <= n
    CDS = <<starts, ends, strand, frames, seqlen, mixed>> ; TX = <<estarts, eends, strand, cstarts, cends, frames, seqlen>>
    FEAT = <<starts, ends, strand, seqlen>> ; GENE = <<nTranscripts, nPrimaryFlags, duplicateChild>>
    VAR = <<start, end, altLen, seqlen>> ; VCOLL = <<spans>> ; COLL = <<start|-1, end|-1, nMembers>>
-   PARENT = <<locEnd, seqlen, strandGiven, locStrand>> ; CODON = <<chars>> (three IUPAC nucleotide letters, any case) *)
+   PARENT = <<locEnd, seqlen, strandGiven, locStrand>> ; CODON = <<chars>> (three IUPAC nucleotide letters, any case)
+   QPOS = <<collStart, collEnd, qStart, qEnd, startGiven, endGiven>> : AnnotationCollection.query_by_position on a collection
+          with explicit bounds; a bound that is not given defaults to the collection's own
+   FSI = <<parents, strands>> : CompoundInterval.from_single_intervals; one entry per block, a parent is <<id, sequence
+          variant (0 = none), type>> or <<>> for none -- the blocks must agree on the WHOLE parent, not on its id *)
 Valid(cls, a) ==
   CASE cls = "SI" -> 0 <= a[1] /\ a[1] <= a[2] /\ (a[4] < 0 \/ a[2] <= a[4])
     [] cls = "CI" -> Pairwise(a[1], a[2]) /\ WithinSeq(a[2], a[4])
@@ -35,6 +41,9 @@ Valid(cls, a) ==
     [] cls = "VCOLL" -> Len(a[1]) >= 1 /\ \A i, j \in DOMAIN a[1] : i < j => (a[1][i][2] <= a[1][j][1] \/ a[1][j][2] <= a[1][i][1])
     [] cls = "COLL" -> (a[1] < 0) = (a[2] < 0)
     [] cls = "PARENT" -> (a[2] < 0 \/ a[1] <= a[2]) /\ (a[3] = "" \/ a[3] = a[4])
+    [] cls = "QPOS" -> LET s == IF a[5] THEN a[3] ELSE a[1] e == IF a[6] THEN a[4] ELSE a[2] IN
+                       0 <= s /\ a[1] <= s /\ s < e /\ e <= a[2]
+    [] cls = "FSI" -> Len(a[1]) >= 1 /\ (\A i, j \in DOMAIN a[1] : a[1][i] = a[1][j]) /\ (\A i, j \in DOMAIN a[2] : a[2][i] = a[2][j])
     [] cls = "CODON" -> Len(a[1]) = 3 /\ \A i \in DOMAIN a[1] : a[1][i] \in AllCases(IupacLetters)
 (* corruptions: each yields an INVALID tuple when it applies (checked by TLC in ValidityMC) *)
 Bump(s, i, v) == [s EXCEPT ![i] = v]
@@ -80,5 +89,22 @@ Corrupt(cls, a, kind) ==
     [] cls = "CODON" /\ kind = "too-short" -> <<SubSeq(a[1], 1, 2)>>
     [] cls = "CODON" /\ kind = "too-long" -> <<Append(a[1], "A")>>
     [] cls = "CODON" /\ kind = "empty" -> <<<<>>>>
+    \* an explicit bound that is exactly 0 where 0 is not a valid bound (it must not be read as "not given")
+    [] cls = "QPOS" /\ kind = "zero-start" /\ a[1] > 0 -> <<a[1], a[2], 0, a[4], TRUE, a[6]>>
+    [] cls = "QPOS" /\ kind = "zero-end" -> <<a[1], a[2], a[3], 0, a[5], TRUE>>
+    [] cls = "QPOS" /\ kind = "before-bounds" /\ a[1] > 0 -> <<a[1], a[2], a[1] - 1, a[4], TRUE, a[6]>>
+    [] cls = "QPOS" /\ kind = "beyond-bounds" -> <<a[1], a[2], a[3], a[2] + 1, a[5], TRUE>>
+    [] cls = "QPOS" /\ kind = "start>end" -> <<a[1], a[2], a[1] + 2, a[1] + 1, TRUE, TRUE>>
+    [] cls = "QPOS" /\ kind = "zero-length" -> <<a[1], a[2], a[1] + 1, a[1] + 1, TRUE, TRUE>>
+    [] cls = "QPOS" /\ kind = "negative" -> <<a[1], a[2], -1, a[4], TRUE, a[6]>>
+    [] cls = "FSI" /\ kind = "empty" -> <<<<>>, <<>>>>
+    [] cls = "FSI" /\ kind = "strand-mismatch" /\ Len(a[2]) >= 2 -> <<a[1], Bump(a[2], Len(a[2]), IF a[2][1] = "+" THEN "-" ELSE "+")>>
+    [] cls = "FSI" /\ kind = "parent-other-id" /\ Len(a[1]) >= 2 /\ a[1][1] # <<>> ->
+         <<Bump(a[1], Len(a[1]), <<"Q", a[1][1][2], a[1][1][3]>>), a[2]>>
+    [] cls = "FSI" /\ kind = "parent-other-sequence" /\ Len(a[1]) >= 2 /\ a[1][1] # <<>> /\ a[1][1][2] > 0 ->
+         <<Bump(a[1], Len(a[1]), <<a[1][1][1], a[1][1][2] + 1, a[1][1][3]>>), a[2]>>
+    [] cls = "FSI" /\ kind = "parent-other-type" /\ Len(a[1]) >= 2 /\ a[1][1] # <<>> ->
+         <<Bump(a[1], Len(a[1]), <<a[1][1][1], a[1][1][2], IF a[1][1][3] = "chromosome" THEN "plasmid" ELSE "chromosome">>), a[2]>>
+    [] cls = "FSI" /\ kind = "parent-missing" /\ Len(a[1]) >= 2 /\ a[1][1] # <<>> -> <<Bump(a[1], 1, <<>>), a[2]>>
     [] OTHER -> a
 =============================================================================
